@@ -101,7 +101,7 @@ def tick():
     ACTIVITY[0] += 1
 
 
-def execute(prog, how, pol, seed, monitors, rrt_exp=None, fresh_scheduler=True):
+def execute(prog, how, pol, seed, monitors, rrt_exp=None, fresh_scheduler=True, keep_deps=False):
     """Run one program once on asynq with the requested monitors installed.
     Returns (rt, out, exp, rrt)."""
     from . import harness, monitors as M
@@ -130,7 +130,20 @@ def execute(prog, how, pol, seed, monitors, rrt_exp=None, fresh_scheduler=True):
         rt.before_probes.append(M.ctx_flush_probe)
         rt.close_probes.append(M.nonasync_close_probe)
     rt.book = book
-    out = rt.run(how, fresh_scheduler=fresh_scheduler)
+    if keep_deps:
+        # debug option KEEP_DEPENDENCIES (tasks keep their dependency lists, flushed batches their items) - which
+        # e.g. the library's own test-suite leaves switched on - must make no difference to any oracle
+        import asynq.debug as _adebug
+
+        old_keep = _adebug.options.KEEP_DEPENDENCIES
+        _adebug.options.KEEP_DEPENDENCIES = True
+        try:
+            out = rt.run(how, fresh_scheduler=fresh_scheduler)
+        finally:
+            _adebug.options.KEEP_DEPENDENCIES = old_keep
+        rt.ran_with_keep_deps = True
+    else:
+        out = rt.run(how, fresh_scheduler=fresh_scheduler)
     if "nesting" in monitors:
         M.nesting_check(rt)
     if book is not None:
